@@ -147,7 +147,7 @@ def variants(rng, t, u):
 def run(ck: Check) -> None:
     rng = ck.rng
     cases = []
-    for i in range(3500 if ck.thorough else 600):
+    for i in range(ck.n(3500, 600)):
         if i % 3 == 0:
             t, u, tag = directed_pair(rng)
             cases.append(Case("vroot", [t, u], tag=tag.split(":old")[0], group=i, meta={"scenario": tag}))
